@@ -46,6 +46,13 @@ CHECKS = {
    note="Not judged: des3 string-to-key of empty password with empty salt (n-fold of the empty string is undefined); EncryptionKey.KeyType label when the hinted etype differs from the requested one. PA-data encodings come from the independent DER writer.",
    technique="bounded-exhaustive enumeration of input grids on the real code against a reference model (RFC vectors + JDK as second oracle)",
    engine="enum"),
+ "C13": dict(
+   category="model_checking",
+   text="For each of the 17 listed types a baseline value, every single field variant and every pair of variants of different fields (optionals present/absent, integers at the 8/16/32-bit boundaries and negative, 0-4 name components, string lengths {0,1,127,128,255,256,65535,65536}, every flag bit, 0-3 additional tickets, 1-9 etypes) is encoded by the independent strict-DER reference (which reproduces the MIT reference encodings byte for byte), decoded by gokrb5 and re-encoded: the bytes must be identical, which makes the independent decoder's view of gokrb5's output equal to the model. The same for real encrypted Ticket / AP-REQ / AS-REP / TGS-REP / KRB-PRIV of every etype after Decrypt / Verify / DecryptEncPart; values built with gokrb5's constructors (SetFlag for every bit, NewKRBError, MarshalTicketSequence, AddASNAppTag) are decoded by the strict reference decoder; MarshalLengthBytes / GetLengthFromASN / GetNumberBytesInLengthHeader are compared with the reference for every length 0..2^24.",
+   design="DESIGN.md 2/C13",
+   note="Generated values avoid optional fields transmitted with a zero/empty value (the property exempts them). NegTokenResp always carries negState (gokrb5 cannot omit it; decoding foreign tokens without it belongs to C03/C04). Known finding: EncTGSRepPart is re-encoded with application tag 25.",
+   technique="bounded-exhaustive enumeration (baseline + 1-2 field deviations per type) with byte-exact differential comparison against an independent DER codec",
+   engine="enum"),
  "C14": dict(
    category="model_checking",
    text="Keytab files rendered by an independent writer from an enumerated entry alphabet (6 principal shapes incl. empty and 300-byte components x 3 realms x 5 etypes incl. unsupported and negative ids x 5 kvno8/kvno32 shapes x 5 timestamps over the 32-bit range = 2250 entries) x format version {1,2} x 5 hole patterns, plus the empty keytab, all ordered pairs over a sub-alphabet and all sequences up to length 6/8: gokrb5's parse must equal the independent reader field by field, Marshal output must be read back identically by the independent reader and by gokrb5. Key lookup is compared with a model filter for every query of a near-miss product (6 principals x 4 realms x 7 kvnos x 3 etypes) against every 1-3 entry keytab of a 10-entry lookup alphabet; AddEntry is checked for six etypes against the reference string-to-key.",
